@@ -184,6 +184,12 @@ def run(ck: Check) -> int:
         for _ in range(4000 if quick else 60000):
             q = gen.mutate(R, P.gen_path(R)).replace('.', 'a')
             pats_all.append(q)
+        # malformed / collapsed bracket expressions at a segment start (added after seeded change C03f: a negated bracket whose ranges
+        # are all reversed — "anything" — was emitted without the start-of-segment guards)
+        for h, close in (('', ''), ('a/', ''), ('@(', ')'), ('*(x|', ')'), ('!(x)/', ''), ('**/', '')):
+            for tk in ('[!z-a]', '[^9-0z-y]', '[!b-a]', '[z-a]', '[!a]', '[a-]', '[!]-a]', '[]-a]', '[!--+]', '[!z-ab]', '[^b-a-]', '[![:alpha:]z-a]'):
+                for tail in ('', 'a', '*', '?', '[!z-a]', '(a', ')'):
+                    pats_all.append(h + tk + tail + close)
         fn_names = ['.', '..', '.a', '.ab', '.(a', '.(ab', '.a)', '.|a', '.[a', '.a|a', '.!a', '.@(a', '.+(a)', '.a]', '.\\a']
         pth_names = fn_names + ['a/.a', '.a/a', 'a/.(a', 'a/.', 'a/..', './a', '../a', 'a/.a/a', 'a/.(ab', '.a/', 'a/.a)']
         fn_fl = F.E | F.U
@@ -319,7 +325,22 @@ def run(ck: Check) -> int:
                 fl |= G.GLOBSTARLONG
             if fl & G.MATCHBASE and p in ('**', '***'):
                 fl &= ~G.MATCHBASE          # KF-D6 (implicit prefix + pattern-initial globstar) is searched by the sandwich above
-            out.append(K.Case(p, fl, None, R_.choice(['root_dir', 'root_dir', 'cwd', 'dir_fd', 'bytes'])))
+            pp = p
+            if R_.random() < 0.2:
+                # an exclusion written BEFORE the inclusion (list / SPLIT / BRACE): exclusions behave as if DOTGLOB were set, the
+                # inclusions that follow do not (added after seeded change C03e: the walker kept the exclusion's flags)
+                ex = R_.choice(['zzz', '*.bak', 'b', '**/zz'])
+                form = R_.randrange(3)
+                fl |= G.NEGATE
+                if form == 0:
+                    pp = ['!' + ex, p]
+                elif form == 1 and '|' not in p:
+                    pp, fl = '!' + ex + '|' + p, fl | G.SPLIT
+                elif ',' not in p and '{' not in p:
+                    pp, fl = '{!' + ex + ',' + p + '}', fl | G.BRACE
+                else:
+                    pp = ['!' + ex, p]
+            out.append(K.Case(pp, fl, None, R_.choice(['root_dir', 'root_dir', 'cwd', 'dir_fd', 'bytes'])))
         return out
 
     def _hidden_seg(path: str) -> bool:
@@ -330,7 +351,7 @@ def run(ck: Check) -> int:
             return
         res = [p_ for k_, p_ in ev if k_ == 'y']
         tstats['results_checked'] += len(res)
-        dotfree = '.' not in c.pats
+        dotfree = all('.' not in q for q in ([c.pats] if isinstance(c.pats, str) else c.pats))
         for r_ in res:
             if _hidden_seg(r_):
                 if dotfree:
@@ -340,7 +361,7 @@ def run(ck: Check) -> int:
                 else:
                     tstats['hidden_results_granted_by_written_dot'] += 1
         # the same pattern through pathlib and WcMatch (dot-free patterns only)
-        if dotfree and c.mode == 'root_dir':
+        if dotfree and c.mode == 'root_dir' and isinstance(c.pats, str) and not c.flags & G.NEGATE:
             pfl = c.flags & ~(G.MARK | G.NOUNIQUE)
             try:
                 with common.time_limit(10):
